@@ -55,11 +55,18 @@ type SimWriter struct {
 
 // faultErrors are the identities an injected write error can have: a private
 // sentinel, the errors a closed pipe gives (a caller may be tempted to treat
-// those as "the reader went away, fine"), io.ErrShortWrite, and a wrapped one.
+// those as "the reader went away, fine"), io.ErrShortWrite, a wrapped one, and
+// one whose dynamic type cannot be compared with == (a slice of errors, as
+// multi-error types are): code that compares two such values panics.
 var faultErrors = []error{
 	ErrInjected, io.ErrClosedPipe, syscall.EPIPE, io.ErrShortWrite,
 	&os.PathError{Op: "write", Path: "|1", Err: syscall.EPIPE},
+	severalErrors{ErrInjected, syscall.EPIPE},
 }
+
+type severalErrors []error
+
+func (e severalErrors) Error() string { return "several errors: " + e[0].Error() }
 
 func (w *SimWriter) fault() error {
 	if w.Err != nil {
